@@ -335,4 +335,90 @@ theorem cpp_write_impl_collision_iff (a b : List Nat) :
     exact (List.append_cancel_left h).symm
   · intro h; rw [h, List.append_assoc]
 
+/-! ### accepted members get distinct identifiers -/
+
+theorem alnum_of_memberName {n : List Nat} (h : memberName n = true) : alnum n ∧ n ≠ [] := by
+  cases n with
+  | nil => simp [memberName] at h
+  | cons c r =>
+    simp only [memberName, Bool.and_eq_true, List.all_eq_true, decide_eq_true_eq] at h
+    refine ⟨?_, by simp⟩
+    intro x hx
+    rcases List.mem_cons.1 hx with h1 | h1
+    · subst h1; simp [isAlnum, h.1.1]
+    · exact h.1.2 x h1
+
+theorem membersOk_spec : ∀ (names seenNames seenSnake : List (List Nat)), membersOk names seenNames seenSnake = true →
+    (∀ n ∈ names, memberName n = true) ∧ (names.map snake).Nodup ∧ (∀ n ∈ names, snake n ∉ seenSnake) := by
+  intro names
+  induction names with
+  | nil => intro _ _ _; exact ⟨by simp, by simp, by simp⟩
+  | cons n rest ih =>
+    intro sn ss h
+    simp only [membersOk, Bool.and_eq_true, Bool.not_eq_true', List.contains_eq_mem, decide_eq_false_iff_not] at h
+    obtain ⟨⟨⟨h1, _⟩, h3⟩, h4⟩ := h
+    obtain ⟨i1, i2, i3⟩ := ih _ _ h4
+    refine ⟨?_, ?_, ?_⟩
+    · intro m hm
+      rcases List.mem_cons.1 hm with e | e
+      · subst e; exact h1
+      · exact i1 m e
+    · simp only [List.map_cons, List.nodup_cons]
+      refine ⟨?_, i2⟩
+      intro hmem
+      obtain ⟨m, hm, e⟩ := List.mem_map.1 hmem
+      have := i3 m hm
+      rw [e] at this
+      exact this (List.mem_cons_self)
+    · intro m hm
+      rcases List.mem_cons.1 hm with e | e
+      · subst e; simpa using h3
+      · intro hc
+        exact i3 m e (List.mem_cons_of_mem _ hc)
+
+theorem nodup_map_of_inj_on {α β : Type} (f : α → β) : ∀ (l : List α), l.Nodup →
+    (∀ a ∈ l, ∀ b ∈ l, f a = f b → a = b) → (l.map f).Nodup := by
+  intro l
+  induction l with
+  | nil => intro _ _; simp
+  | cons x r ih =>
+    intro hn hinj
+    rw [List.nodup_cons] at hn
+    simp only [List.map_cons, List.nodup_cons]
+    refine ⟨?_, ih hn.2 (fun a ha b hb => hinj a (List.mem_cons_of_mem _ ha) b (List.mem_cons_of_mem _ hb))⟩
+    intro hm
+    obtain ⟨y, hy, e⟩ := List.mem_map.1 hm
+    have := hinj y (List.mem_cons_of_mem _ hy) x (List.mem_cons_self) e
+    subst this
+    exact hn.1 hy
+
+/-- **the members of an accepted record (or the steps of an accepted protocol) get pairwise distinct identifiers** in Python and MATLAB
+    (suffix `_`) and in C++ (the recursive `_field` rule) — for every reserved table -/
+theorem accepted_members_get_distinct_identifiers (Rpy Rmat Rcpp : List (List Nat)) (names : List (List Nat))
+    (h : membersOk names [] [] = true) :
+    (names.map fun n => ident Rpy [us] (snake n)).Nodup ∧ (names.map fun n => ident Rmat [us] (snake n)).Nodup ∧
+    (names.map fun n => identRec Rcpp (str "_field") (snake n)).Nodup := by
+  obtain ⟨hm, hnd, _⟩ := membersOk_spec names [] [] h
+  have last : ∀ x ∈ names.map snake, x.getLast? ≠ some us := by
+    intro x hx
+    obtain ⟨n, hn, e⟩ := List.mem_map.1 hx
+    subst e
+    have := alnum_of_memberName (hm n hn)
+    exact snake_last this.1 this.2
+  have e1 : ∀ (R : List (List Nat)), (names.map fun n => ident R [us] (snake n)) = (names.map snake).map (ident R [us]) := by
+    intro R; simp [List.map_map]
+  have e3 : (names.map fun n => identRec Rcpp (str "_field") (snake n)) = (names.map snake).map (identRec Rcpp (str "_field")) := by
+    simp [List.map_map]
+  refine ⟨?_, ?_, ?_⟩
+  · rw [e1]
+    exact nodup_map_of_inj_on _ _ hnd (fun a ha b hb e => ident_underscore_injective Rpy a b (last a ha) (last b hb) e)
+  · rw [e1]
+    exact nodup_map_of_inj_on _ _ hnd (fun a ha b hb e => ident_underscore_injective Rmat a b (last a ha) (last b hb) e)
+  · rw [e3]
+    exact nodup_map_of_inj_on _ _ hnd (fun a _ b _ e => identRec_injective Rcpp _ a b (by decide) e)
+
+/-- non-vacuity: an ordinary record is accepted; the pair the validator exists to reject is rejected -/
+example : membersOk [str "class", str "classField", str "fooBar", str "x1"] [] [] = true ∧
+    membersOk [str "fooBar", str "fooBAR"] [] [] = false ∧ membersOk [str "a", str "a"] [] [] = false ∧ membersOk [str "Abc"] [] [] = false := by decide
+
 end Yardl.Case
